@@ -13,7 +13,8 @@ KINDS = {
     "C09": {"locks", "panic", "deadlock"},
     "C10": {"coupling", "resting"},
     # C07's write-frame oracle (concrun -writeframe): see writeframe_check, called by racecheck
-    "C07": {"writeframe"},
+    # and read-frame probe (`opt readframe`)
+    "C07": {"writeframe", "readframe"},
 }
 PROFILES = {
     "C03": ["point", "point", "delete"],
@@ -88,16 +89,23 @@ def run_concrun(bindir, scratch, name, cases, dfs_max=20000, extra_args=()):
         for c in cases:
             fh.write("\n".join(c) + "\n")
     with open(f) as fin:
+        # one goroutine runs at a time under the cooperative scheduler: a single P makes every
+        # hand-over a goroutine switch instead of a futex round trip between OS threads
         r = subprocess.run([os.path.join(bindir, "concrun"), "-dfs-max", str(dfs_max)] + list(extra_args), stdin=fin,
-                           stdout=subprocess.PIPE, stderr=subprocess.PIPE, text=True)
+                           stdout=subprocess.PIPE, stderr=subprocess.PIPE, text=True, env=dict(os.environ, GOMAXPROCS="1"))
     runs, dfs = parse_runs(r.stdout)
     return runs, dfs, (r.returncode, r.stderr[-2000:])
 
 
-def run_parallel(bindir, scratch, name, cases, dfs_max=20000, extra_args=()):
+def run_parallel(bindir, scratch, name, cases, dfs_max=20000, extra_args=(), solo=()):
+    """`solo`: heavy cases (thousands of prefix operations, a long cursor session) that get a
+    process of their own each, next to the shards of `cases`."""
     shards = min(vlib.NCPU, max(1, len(cases) // 4))
-    parts = [cases[i::shards] for i in range(shards)]
-    with ThreadPoolExecutor(max_workers=shards) as ex:
+    # the heavy ones start first; a few more processes than CPUs, not one per heavy case
+    parts = [[c] for c in solo] + [cases[i::shards] for i in range(shards)]
+    parts = [p for p in parts if p] or [[]]
+    shards = len(parts)
+    with ThreadPoolExecutor(max_workers=min(shards, vlib.NCPU + 10)) as ex:
         futs = [ex.submit(run_concrun, bindir, scratch, "%s.%d" % (name, i), parts[i], dfs_max, extra_args) for i in range(shards)]
         res = [f.result() for f in futs]
     allruns, alldfs, errs = [], [], []
@@ -105,7 +113,10 @@ def run_parallel(bindir, scratch, name, cases, dfs_max=20000, extra_args=()):
         for r in runs:
             r["case_lines"] = parts[i][r["case"]]
             allruns.append(r)
-        alldfs += dfs
+        for l in dfs:
+            # the summary of an exploration names its case by position in the shard: add the order
+            k = int(l.split()[2])
+            alldfs.append(l + (" order %s" % parts[i][k][0].split()[2] if k < len(parts[i]) else ""))
         if err[0] != 0:
             errs.append(err)
     return allruns, alldfs, errs
@@ -127,6 +138,120 @@ def gen_cases(pid, rng, n, nsched):
     return cases
 
 
+# ---- wide orders, a root with more than 64 children, a long cursor session, unlock yields
+WIDE_N = {"quick": 48, "thorough": 600}
+WIDE_NSCHED = {"quick": 12, "thorough": 32}
+UY_DFS_MAX = {"quick": 700, "thorough": 6000}
+UY_RANDOM = {"quick": (120, 8), "thorough": (1500, 16)}
+UY_PROPS = ("C03", "C04", "C05")
+LONG_PROPS = ("C04", "C09")
+def _pidnum(pid):
+    return int(pid[1:3])
+
+
+def wide_random_cases(pid, tier, n=None, nsched=None, allow_dfs=True):
+    """random leaf-level shapes at orders 64/128/256 (thorough: 512); own random stream, so the
+    cases of gen_cases stay what they were"""
+    rng = random.Random(vlib.SEED * 1000003 + 7700 + _pidnum(pid))
+    out = []
+    for _ in range(WIDE_N[tier] if n is None else n):
+        prof = rng.choice(PROFILES[pid])
+        lines, small = genconc.wide_case(rng, prof, genconc.WIDE_ORDERS[tier])
+        sseed = rng.randrange(1 << 30)
+        if small and allow_dfs:
+            out.append(lines + ["strategy dfs", "cend"])
+        else:
+            out.append(lines + ["strategy random %d %d" % (sseed, nsched or WIDE_NSCHED[tier]), "cend"])
+    return out
+
+
+def wide_fixed_cases(pid, tier):
+    """wide_catalogue: order 128 for all six key types, orders 64 and 256 (thorough: 512 too)
+    with the type rotating per configuration (thorough: all six)"""
+    full = tier == "thorough"
+    return genconc.wide_catalogue(orders=(128,), full=True) + \
+        genconc.wide_catalogue(orders=((64, 256, 512) if full else (64, 256)), full=full)
+
+
+def huge_cases(pid, tier, dfs=True):
+    """a root (or internal node) with more than 64 children: per key type one two-goroutine
+    case (Search against a split / merge / borrow of the leaf it heads for; variant rotating
+    with the seed, thorough: all three), every schedule; plus one three-goroutine case under
+    random schedules, type rotating with the seed"""
+    rng = random.Random(vlib.SEED * 1000003 + 7800 + _pidnum(pid))
+    variants = ["split", "merge", "borrow"]
+    out = []
+    for ti, ty in enumerate(genconc.genseq.TYPES):
+        vs = variants if tier == "thorough" else [variants[(vlib.SEED + ti + _pidnum(pid)) % 3]]
+        for v in vs:
+            lines = genconc.huge_case(rng, ty, v)
+            sseed = rng.randrange(1 << 30)
+            out.append(lines + ["strategy dfs" if dfs else "strategy random %d 6" % sseed, "cend"])
+    ty = genconc.genseq.TYPES[(vlib.SEED + _pidnum(pid)) % 6]
+    nk = 9000 if rng.random() < 0.5 else rng.randrange(5400, 8100)
+    lines = genconc.huge_case(rng, ty, "rand", nkeys=nk)
+    out.append(lines + ["strategy random %d %d" % (rng.randrange(1 << 30), 8 if tier == "quick" else 24), "cend"])
+    return out
+
+
+def long_cursor_cases(pid, tier):
+    """one cursor with more than 8300 steps over about 10 000 keys (order 16 or 32) and two
+    writers working through the leaves it traverses in steps 8080..8310, paced by the
+    cursor's progress; one case per scheduling mode (queue / ahead / rand, thorough: behind /
+    cursor too; see concrun `strategy lead`), each a process of its own. Type rotating with the seed (seed 1: i32, 2: i64, ...), thorough: all six."""
+    tys = genconc.genseq.TYPES if tier == "thorough" else [genconc.genseq.TYPES[(vlib.SEED - 1) % 6]]
+    out = []
+    for ti, ty in enumerate(tys):
+        rng = random.Random(vlib.SEED * 1000003 + 7900 + _pidnum(pid) + 31 * ti)
+        lines, lead, pace, steps = genconc.long_cursor_case(rng, ty, order=rng.choice([16, 32]))
+        for mi, mode in enumerate(["queue", "ahead", "rand"] if tier == "quick" else ["queue", "ahead", "rand", "behind", "cursor"]):
+            out.append(lines + ["strategy lead 0 %d %s %d %d pace %s" % (lead, mode, rng.randrange(1 << 30), 1 if tier == "quick" else 2, pace), "cend"])
+    return out
+
+
+def with_yieldunlock(case_lines, strategy=None):
+    c = [l for l in case_lines if not l.startswith("opt ")]
+    if strategy is not None:
+        c = [strategy if l.startswith("strategy") else l for l in c]
+    return [c[0], "opt yieldunlock"] + c[1:]
+
+
+def is_unlock_yield(case_lines):
+    return any(l.startswith("opt ") and "yieldunlock" in l.split() for l in case_lines[:4])
+
+
+def unlock_yield_cases(pid, tier, rnd, wide_rnd, huge):
+    """The share of cases that run with Unlock as a scheduling point too (`opt yieldunlock`):
+    judged by the implementation-side oracles only (linearizability, cursor successor,
+    callback count, panics); the Lean model has no unlock yields, so these runs are not tied.
+    An unlock-yield schedule of race-free code is an interleaving like any other, so the
+    oracles must stay silent on them; an access that moved out of its critical section makes
+    them speak."""
+    tys = genconc.genseq.TYPES
+    cat_types = tys if tier == "thorough" else [tys[(vlib.SEED + _pidnum(pid) + d) % 6] for d in (0, 3)]
+    out = [with_yieldunlock(c) for c in genconc.catalogue(types=cat_types)]
+    # wide_catalogue at order 128: the point-operation configurations (a few hundred schedules
+    # each: explored exhaustively, or nearly so, within UY_DFS_MAX) for all six key types, the
+    # cursor configurations for one type each (thorough: everything, orders 64 and 256 too)
+    if tier == "thorough":
+        wf = genconc.wide_catalogue(orders=(128, 64, 256), full=True)
+    else:
+        rot = tys[(vlib.SEED + _pidnum(pid)) % 6:] + tys[:(vlib.SEED + _pidnum(pid)) % 6]
+        wf = genconc.wide_catalogue(orders=(128,), full=True, select=lambda n: not n.startswith("cursor")) + \
+            genconc.wide_catalogue(types=rot, orders=(128,), full=False, select=lambda n: n.startswith("cursor"))
+    out += [with_yieldunlock(c) for c in wf]
+    n, nsched = UY_RANDOM[tier]
+    for c in rnd[:n]:
+        st = [l for l in c if l.startswith("strategy")][0].split()
+        out.append(with_yieldunlock(c, "strategy random %s %d" % (st[2], nsched)))
+    for c in wide_rnd:
+        st = [l for l in c if l.startswith("strategy")][0].split()
+        out.append(with_yieldunlock(c, None if st[1] == "dfs" else "strategy random %s %d" % (st[2], nsched)))
+    for i, c in enumerate(huge):
+        out.append(with_yieldunlock(c, "strategy random %d %d" % (vlib.SEED * 131 + i, 6 if tier == "quick" else 16)))
+    return out
+
+
 # Per-step structure comparison (`opt stepsnap`): concrun prints `s <tree>` (the canonical
 # rendering of the `final` line) before every scheduling decision and the Lean driver does the
 # same for the configuration in which the decision is taken, so the tie compares the WHOLE
@@ -137,6 +262,21 @@ def gen_cases(pid, rng, n, nsched):
 # lines; the thorough tier has 33x the runs, hence the smaller share there).
 STEPSNAP_MAX_PRE = 150
 STEPSNAP_RANDOM_EVERY = {"quick": 4, "thorough": 16}
+
+
+STEPSNAP_MAX_PRE_WIDE = 420
+
+
+def npre(case_lines):
+    return sum(1 for l in case_lines if l.startswith("pre "))
+
+
+def trim_log(lines, n=400):
+    """the event log of a replay file: the first and the last lines of a long log"""
+    lines = [l if len(l) < 2000 else l[:2000] + " ..." for l in lines]
+    if len(lines) <= n:
+        return lines
+    return lines[:n // 4] + ["... (%d lines)" % (len(lines) - n)] + lines[-(n - n // 4):]
 
 
 def with_stepsnap(case_lines):
@@ -207,15 +347,49 @@ def _check(pid, tier, sc, t0, sink=None):
     corpus = load_corpus(pid)
     fixed = corpus + genconc.catalogue() + genconc.scaled_catalogue(full=(tier == "thorough")) + genconc.tall_catalogue(sizes=((9, 13, 17) if tier == "quick" else (9, 13, 17, 27, 41))) + genconc.spine_cases(nsched=(3 if tier == "quick" else 12))
     rnd = gen_cases(pid, rng, ncases, nsched)
+    # wide orders (own random streams: the cases above are what they were without them)
+    wide_fixed = wide_fixed_cases(pid, tier)
+    wide_rnd = wide_random_cases(pid, tier)
+    huge = huge_cases(pid, tier)
+    longc = long_cursor_cases(pid, tier) if pid in LONG_PROPS else []
+    fixed = fixed + wide_fixed
     # the selection draws nothing from rng: the cases are the same with and without it
     cases = [with_stepsnap(c) if modest(c) else c for c in fixed] + \
-            [with_stepsnap(c) if i % STEPSNAP_RANDOM_EVERY[tier] == 0 else c for i, c in enumerate(rnd)]
-    runs, dfs, errs = run_parallel(bindir, sc, "main", cases)
+            [with_stepsnap(c) if i % STEPSNAP_RANDOM_EVERY[tier] == 0 else c for i, c in enumerate(rnd)] + \
+            [with_stepsnap(c) if i % STEPSNAP_RANDOM_EVERY[tier] == 0 and npre(c) <= STEPSNAP_MAX_PRE_WIDE else c for i, c in enumerate(wide_rnd)]
+    solo = huge + longc
+    # unlock yields: implementation-side oracles only, never tied to the model. They run in the
+    # background, next to the main run and the model's replay of it.
+    uy_runs, uy_dfs, uy_cases, uy_wall = [], [], [], [0.0]
+    uy_future = uy_pool = None
+    if pid in UY_PROPS:
+        uy_cases = unlock_yield_cases(pid, tier, rnd, wide_rnd, huge)
+        def uy_job():
+            t = time.time()
+            res = run_parallel(bindir, sc, "uy", uy_cases, dfs_max=UY_DFS_MAX[tier])
+            uy_wall[0] = time.time() - t
+            return res
+        uy_pool = ThreadPoolExecutor(max_workers=1)
+        uy_future = uy_pool.submit(uy_job)
+    t_run = time.time()
+    runs, dfs, errs = run_parallel(bindir, sc, "main", cases, solo=solo)
+    cases = cases + solo
+    t_run = time.time() - t_run
+    # TIE: the Lean small-step model under the same schedules (the unlock-yield runs are not
+    # among them: the model's scheduling points are the lock acquisitions)
+    t_tie = time.time()
+    tie = model_tie(pid, sc, runs)
+    t_tie = time.time() - t_tie
+    if uy_future is not None:
+        uy_runs, uy_dfs, uy_errs = uy_future.result()
+        uy_pool.shutdown()
+        errs = errs + uy_errs
+    t_uy = uy_wall[0]
     violations, known_hits = [], {}
     for e in errs:
         tie_broken.append(dict(kind="harness", detail="concrun exited %d: %s" % e))
     seen = set()
-    for r in runs:
+    for r in runs + uy_runs:
         for tag, k, d in relevant(pid, r, known):
             if tag.startswith("known:"):
                 known_hits.setdefault(tag[6:], (k, d, r))
@@ -225,9 +399,8 @@ def _check(pid, tier, sc, t0, sink=None):
                 continue
             seen.add(key)
             violations.append(dict(property=pid, engine="conc", kind=k, observed=d, case=replay_case(r),
-                                   event_log=r["lines"][:400], seed=vlib.SEED, how="bin/check --replay <this file>"))
-    # TIE: the Lean small-step model under the same schedules
-    tie = model_tie(pid, sc, runs)
+                                   yield_points=("lock+unlock" if is_unlock_yield(r["case_lines"]) else "lock"),
+                                   event_log=trim_log(r["lines"]), seed=vlib.SEED, how="bin/check --replay <this file>"))
     if tie.get("mismatch"):
         tie_broken.append(dict(kind="correspondence", **tie["mismatch"]))
     if pid == "C06" and tie.get("unranked_states"):
@@ -250,7 +423,7 @@ def _check(pid, tier, sc, t0, sink=None):
         nviol += 1
         rc = 1
     # (the per-step structure lines are left out of the hash: the count stays comparable)
-    distinct = len({vlib.trace_hash([l for l in r["lines"] if not l.startswith("s ")]) for r in runs if any(l.startswith("a ") for l in r["lines"])})
+    distinct = len({vlib.trace_hash([l for l in r["lines"] if not l.startswith("s ")]) for r in runs + uy_runs if any(l.startswith("a ") for l in r["lines"])})
     stats = dict(runs=len(runs), cases=len(cases), dfs=dfs[:20],
                  threads={}, with_cursor=sum(1 for c in cases if has_cursor(c)),
                  stepsnap_cases=sum(1 for c in cases if "opt stepsnap" in c),
@@ -259,16 +432,53 @@ def _check(pid, tier, sc, t0, sink=None):
     for c in cases:
         n = sum(1 for l in c if l.startswith("thread"))
         stats["threads"][str(n)] = stats["threads"].get(str(n), 0) + 1
+    # wide orders / a root with more than 64 children / long cursor sessions / unlock yields
+    def dfs_total(dfs_lines):
+        return sum(int(l.split()[4]) for l in dfs_lines)
+    def by_order(cs):
+        d = {}
+        for c in cs:
+            o = c[0].split()[2]
+            if int(o) >= 64:
+                d[o] = d.get(o, 0) + 1
+        return dict(sorted(d.items(), key=lambda kv: int(kv[0])))
+    long_ids = {id(c) for c in longc}
+    long_runs = [r for r in runs if id(r["case_lines"]) in long_ids]
+    stats["wide"] = dict(
+        cases_per_order=by_order(cases), catalogue_cases=len(wide_fixed), random_cases=len(wide_rnd),
+        types=sorted({c[0].split()[1] for c in cases if int(c[0].split()[2]) >= 64}),
+        huge_cases=[dict(type=c[0].split()[1], order=int(c[0].split()[2]), prefix_ops=npre(c),
+                         strategy=[l for l in c if l.startswith("strategy")][0].split()[1]) for c in huge],
+        schedules_explored=dfs_total([l for l in dfs if " order " in l and int(l.split()[-1]) >= 64]) + sum(1 for r in runs if int(r["case_lines"][0].split()[2]) >= 64 and "dfs" not in [l for l in r["case_lines"] if l.startswith("strategy")][0]))
+    stats["long_cursor"] = dict(
+        cases=len(longc), runs=len(long_runs),
+        types=sorted({c[0].split()[1] for c in longc}),
+        cursor_steps=sum(1 for r in long_runs for l in r["lines"] if l.startswith("n 0 ret ") and l.endswith(" true")),
+        max_steps_one_cursor=max([sum(1 for l in r["lines"] if l.startswith("n 0 ret ") and l.endswith(" true")) for r in long_runs] or [0]),
+        writer_ops=sum(1 for r in long_runs for l in r["lines"] if l.startswith(("n 1 ret ", "n 2 ret "))),
+        modes=[[l for l in c if l.startswith("strategy")][0].split()[4] for c in longc])
+    stats["interval_oracle"] = dict(
+        runs=sum(1 for r in runs + uy_runs for l in r["lines"] if l.startswith("# interval oracle ops")),
+        ops_judged=sum(int(l.split()[4]) for r in runs + uy_runs for l in r["lines"] if l.startswith("# interval oracle ops")))
+    stats["unlock_yield"] = dict(
+        cases=len(uy_cases), runs_emitted=len(uy_runs),
+        unlock_yield_runs=dfs_total(uy_dfs) + sum(1 for r in uy_runs if "dfs" not in [l for l in r["case_lines"] if l.startswith("strategy")][0]),
+        dfs_cases=len(uy_dfs), dfs_exhaustive=sum(1 for l in uy_dfs if "exhaustive true" in l), dfs_max=UY_DFS_MAX[tier],
+        steps=sum(len(r["sched"].split()) for r in uy_runs), cases_per_order=by_order(uy_cases),
+        tied_to_model=0, judged_by="implementation-side oracles: " + ", ".join(sorted(KINDS[pid])))
+    stats["wall_s"] = dict(run=round(t_run, 2), unlock_yield=round(t_uy, 2), tie=round(t_tie, 2))
     samples = [dict(case=r["case_lines"], sched=r["sched"]) for r in runs[:2]]
     cov = dict(obligations=proof["obligations"], discharged=proof["discharged"],
                checker_cmd="cd /verif/lean && lake build Gobptree.Props.%s && lake env lean Gobptree/Props/%s.lean  (#print axioms)" % (pid, pid),
                trusted_base=vlib.TRUSTED_BASE + ["vsync cooperative scheduler and the import rewrite that builds the shadow copy",
                                                 "linearizability checker harness/lin (implementation-side oracle)"],
-               theorems=proof["theorems"], evaluations=len(runs), distinct_nontrivial=distinct,
+               theorems=proof["theorems"], evaluations=len(runs) + len(uy_runs), distinct_nontrivial=distinct,
                rule="executions = (client programs x schedules) on the shadow copy under the deterministic scheduler; non-trivial = at least one lock acquisition; distinct = distinct SHA-1 of the canonical event log",
                samples=samples, traces_validated_against_impl=tie.get("compared", 0),
                disagreements_checked=tie.get("mismatches", 0),
                stepsnap_runs_compared=tie.get("stepsnap_runs", 0), stepsnap_lines_compared=tie.get("stepsnap_lines_compared", 0),
+               unlock_yield_runs=stats["unlock_yield"]["unlock_yield_runs"], unlock_yield_runs_tied=0,
+               wide_cases_per_order=stats["wide"]["cases_per_order"], long_cursor_steps=stats["long_cursor"]["cursor_steps"],
                distribution=stats,
                model_configurations_ranked=tie.get("ranked_states", 0), model_configurations_unranked=tie.get("unranked_states", 0),
                known_findings=sorted(known_hits), proof_problems=proof["problems"])
@@ -286,7 +496,11 @@ def writeframe_check(pid, tier, sc, rng):
     cases of the other concurrent checks run on the shadow copy with the write-frame oracle
     (concrun -writeframe), once with scheduling points at Lock only and once with Unlock as a
     scheduling point too (a write placed after an unlock then falls into a later step, in which
-    the mutex is no longer held). The engine options travel in the case (`opt` line), so a
+    the mutex is no longer held). Every run also carries the read-frame probe (`opt readframe`,
+    see concrun's rfState): the keys and values of the nodes the stepping task does not hold -
+    and of a node from the moment the task releases it - are scrambled for the rest of the
+    step; a run whose log or verdicts differ from the same schedule without the probe shows a
+    read outside the critical section (oracle `readframe`). The engine options travel in the case (`opt` line), so a
     replay file is self-contained. Returns dict(violations, stats, errs, build_error)."""
     t0 = time.time()
     bindir, err = build_shadow(sc)
@@ -296,15 +510,22 @@ def writeframe_check(pid, tier, sc, rng):
     base = load_corpus(None) + genconc.catalogue() + genconc.scaled_catalogue(full=(tier == "thorough")) + \
         genconc.tall_catalogue(sizes=((9, 13, 17) if tier == "quick" else (9, 13, 17, 27, 41))) + \
         genconc.spine_cases(nsched=(2 if tier == "quick" else 8)) + gen_cases(pid, rng, ncases, nsched)
+    # wide orders: the leaf-level catalogue at order 128 (one key type per configuration,
+    # thorough: all six and orders 64/256 too), the random leaf-level shapes, and the trees whose
+    # root has more than 64 children (random schedules only: a step's diff costs the whole tree)
+    wide = (genconc.wide_catalogue(orders=(128, 64, 256), full=True) if tier == "thorough" else
+            genconc.wide_catalogue(types=genconc.genseq.TYPES[vlib.SEED % 6:] + genconc.genseq.TYPES[:vlib.SEED % 6], orders=(128,), full=False)) + \
+        wide_random_cases(pid, tier, nsched=(6 if tier == "quick" else 16)) + huge_cases(pid, tier, dfs=False)
+    base = base + wide
     out = dict(violations=[], errs=[], build_error=None)
     stats = dict(cases=0, runs=0, steps_checked=0, snapshots_diffed=0, nodes_compared=0, modes={}, types={})
     seen = set()
     known = vlib.load_known()
-    for mode, opts, dfs_max in (("lock", "writeframe", dfs_lock), ("lock+unlock", "writeframe yieldunlock", dfs_unlock)):
+    for mode, opts, dfs_max in (("lock", "writeframe readframe", dfs_lock), ("lock+unlock", "writeframe readframe yieldunlock", dfs_unlock)):
         cases = [[c[0], "opt " + opts] + c[1:] for c in base]
         runs, dfs, errs = run_parallel(bindir, sc, "wf_" + mode.replace("+", "_"), cases, dfs_max, extra_args=["-writeframe"])
         out["errs"] += errs
-        steps = nodes = nruns = 0
+        steps = nodes = nruns = rfsteps = rfnodes = 0
         cands = []
         for r in runs:
             nruns += 1
@@ -313,6 +534,10 @@ def writeframe_check(pid, tier, sc, rng):
                     f = l.split()
                     steps += int(f[3])
                     nodes += int(f[5])
+                elif l.startswith("# readframe steps "):
+                    f = l.split()
+                    rfsteps += int(f[3])
+                    rfnodes += int(f[5]) + int(f[7])
             for tag, k, d in relevant(pid, r, known):
                 if tag == "viol":
                     cands.append((len(r["sched"].split()), len(cands), k, d, r))
@@ -324,7 +549,7 @@ def writeframe_check(pid, tier, sc, rng):
                 continue
             seen.add(key)
             out["violations"].append(dict(property=pid, engine="conc", kind=k, observed=d, yield_points=mode, case=replay_case(r),
-                                          event_log=r["lines"][:400], seed=vlib.SEED, how="bin/check --replay <this file>"))
+                                          event_log=trim_log(r["lines"]), seed=vlib.SEED, how="bin/check --replay <this file>"))
         stats_viol = len(cands)
         for l in dfs:
             f = l.split()
@@ -333,15 +558,26 @@ def writeframe_check(pid, tier, sc, rng):
                 steps += int(f[f.index("wfsteps") + 1])
                 nodes += int(f[f.index("wfnodes") + 1])
         stats["modes"][mode] = dict(cases=len(cases), runs=nruns, steps_checked=steps, nodes_compared=nodes,
+                                    readframe_steps_emitted_runs=rfsteps, readframe_nodes_scrambled_emitted_runs=rfnodes,
                                     reports=stats_viol, dfs_cases=len(dfs), dfs_exhaustive=sum(1 for l in dfs if "exhaustive true" in l), dfs_max=dfs_max)
         stats["cases"] += len(cases)
         stats["runs"] += nruns
         stats["steps_checked"] += steps
         stats["snapshots_diffed"] += steps    # one before/after pair of snapshots per step
         stats["nodes_compared"] += nodes
+    stats["wide_cases_per_order"] = {}
     for c in base:
         ty = c[0].split()[1]
         stats["types"][ty] = stats["types"].get(ty, 0) + 1
+        o = c[0].split()[2]
+        if int(o) >= 64:
+            stats["wide_cases_per_order"][o] = stats["wide_cases_per_order"].get(o, 0) + 1
+    stats["readframe_rule"] = ("every run of both modes also carries the read-frame probe (`opt readframe`): when a task is picked, the keys of every node "
+                               "it neither holds nor is about to acquire are reversed and the values replaced by sentinels, likewise a node the moment the task "
+                               "releases it; all is put back before the next decision. Runs made by `random`/`replay` strategies are repeated under the same "
+                               "schedule without the probe and compared line by line; a run of an exhaustive exploration is repeated when an oracle objects to it. "
+                               "A difference is a read of a node outside its critical section (oracle `readframe`, a C07 violation replayed by bin/check --replay). "
+                               "Implementation-side oracle; the Lean development proves the write frame only.")
     stats["wall_s"] = round(time.time() - t0, 2)
     out["stats"] = stats
     return out
